@@ -13,7 +13,7 @@
   Lines the harness refused (`Out.other`) are skipped.
 -/
 import NngModel.Proto.Base
-import NngModel.Generated.Consts
+import NngModel.Generated.C04REQ
 namespace Nng.ReqSpec
 open Nng Nng.Proto
 
